@@ -284,24 +284,69 @@ def run(ctx):
         ctx.ob('GATE', 'membership:%s:min-responses' % name, minresp, c0.where(), 'the %s verdict runs only with responses.len() >= min_peers_to_query: %s' % (name, minresp))
         ctx.ob('GATE', 'membership:%s:candidate-trust' % name, trust_ok, c0.where(), 'the %s verdict runs only if the candidate trust is not below min_witness_trust: %s' % (name, trust_ok))
         ctx.ob('GATE', 'membership:%s:mode' % name, mode_ok, c0.where(), 'the %s verdict is selected by is_attack_mode() == %s: %s' % (name, name == 'bft', mode_ok))
-    # region shortage in BFT mode stores false
+    # region shortage in BFT mode stores false. The region count is identified by what it is (the value published in the
+    # result's public `confirming_regions` field), not by the name of the helper that computes it.
+    rtag = '.%s::confirming_regions' % RES
+    rlocals = set()
+    rtexts = set()
+    counter_fn = None
+    for bi_, si_, s_ in vm.stmts():
+        if rtag in s_['d'][1:] and 'p' in s_['r'].get('o', {}):
+            rlocals |= L.alias_of(vm, [s_['r']['o']['p'][0]])
+            re_ = vm.expr(s_['r']['o'])
+            rtexts.add(re_.strip().show())
+            for x_ in re_.walk():
+                if x_.k == 'call' and x_.c is not None and x_.c.local and prog.has_body(x_.a) and counter_fn is None:
+                    counter_fn = x_.a
     reg = False
     for bb2, bi2, kind, th2 in writes:
         if bb2.id == vm.id and kind == 'assign' and th2['r']['k'] == 'use' and th2['r']['o'].get('v') == '0':
             conds = F.dominating_conds(vm, bi2)
-            r1 = any(L.cmp_is(c, lambda e: e.mentions_call(r'::count_confirming_regions$') is not None, 'Lt', L.ends('.config.min_regions')) for c in conds)
+            r1 = any(L.cmp_is(c, lambda e: L.touches(vm, e, rlocals) or e.strip().show() in rtexts or (counter_fn is not None and e.mentions_call(re.escape(counter_fn) + '$') is not None),
+                              'Lt', L.ends('.config.min_regions')) for c in conds)
             r2 = any(c.kind == 'bool' and c.truth and c.expr.mentions_call(r'::is_attack_mode$') is not None for c in conds)
-            reg = r1 and r2
-    ctx.ob('GATE', 'membership:regions-hard-in-bft', reg, vm.where(), 'regions < min_regions in attack mode stores is_valid = false: %s' % reg)
-    cr = prog.body(VAL + '::count_confirming_regions')
+            reg = reg or (r1 and r2)
+    ctx.ob('GATE', 'membership:regions-hard-in-bft', reg and bool(rlocals), vm.where(), 'confirming_regions < min_regions in attack mode stores is_valid = false: %s' % reg)
+    cr = prog.body(counter_fn) if counter_fn else vm
+    fam = [prog.bodies[i] for i in prog.family(cr.id)]
     okcr = False
-    for cs in cr.calls(r'Iterator::filter$|Iterator>::filter$'):
-        clos = [x for x in cr.expr(cs.args[1]).walk() if x.k == 'agg' and x.d == 'closure']
-        if clos and clos[0].a in prog.bodies:
-            if any('confirms_membership' in json.dumps(s) for _, _, s in prog.bodies[clos[0].a].stmts()):
-                okcr = True
-    ctx.ob('GATE', 'regions:confirming-only', okcr, cr.where(), 'regions are counted over confirming responses only: %s' % okcr)
-    ctx.floor('GATE', 8)
+    for fb_ in fam:
+        if any('confirms_membership' in json.dumps(s_) for _, _, s_ in fb_.stmts()) or any(
+                'confirms_membership' in json.dumps(t_) for _, t_ in fb_.terms()):
+            okcr = True
+    ctx.ob('GATE', 'regions:confirming-only', okcr and (counter_fn is not None or cr is vm), cr.where(), 'regions are counted over confirming responses only: %s' % okcr)
+    # only a *known* region counts: a confirming witness without region information contributes nothing. A default label
+    # (unwrap_or("unknown"), map_or, a helper that renders None as text) would count region-less confirmers as one more region.
+    DEFAULTING = r'Option::<.*>::(unwrap_or|unwrap_or_else|unwrap_or_default|map_or|map_or_else|get_or_insert|get_or_insert_with)$'
+    bad_default = None
+    scan = list(fam)
+    def add_scan(fid):
+        if prog.has_body(fid) and fid != cr.id:
+            for i_ in prog.family(fid):
+                if prog.bodies[i_] not in scan:
+                    scan.append(prog.bodies[i_])
+    for fb_ in fam:
+        for cs_ in fb_.calls():
+            if cs_.local:
+                add_scan(cs_.callee)
+            # functions passed by name (`.map(CloseGroupResponse::region_label)`)
+            for a_ in cs_.args:
+                if isinstance(a_, dict) and 'fn' in a_:
+                    add_scan(a_.get('r', a_['fn']))
+        for _bi, _si, s_ in fb_.stmts():
+            for o_ in F._rvalue_operands(s_['r']):
+                if isinstance(o_, dict) and 'fn' in o_:
+                    add_scan(o_.get('r', o_['fn']))
+    for fb_ in scan:
+        reads_region = any('peer_region' in json.dumps(s_) for _, _, s_ in fb_.stmts())
+        for cs_ in fb_.calls(DEFAULTING):
+            if cs_.args and ('peer_region' in fb_.expr(cs_.args[0]).show() or reads_region):
+                bad_default = (fb_, cs_)
+    ctx.ob('GATE', 'regions:known-regions-only', bad_default is None, (bad_default[1].where() if bad_default else cr.where()),
+           'the region count only sees Some(region) values (no default label for witnesses without region information)' if bad_default is None else
+           '%s gives a witness without region information a default value (%s): region-less confirmers count as one more region, so the '
+           'diversity requirement can be met with fewer real regions' % (bad_default[0].id.rsplit('::', 1)[-1], bad_default[1].short()), entry=cr.id)
+    ctx.floor('GATE', 9)
 
     # ---- 4. table
     db = prog.bodies.get('<%s as std::default::Default>::default' % CFG)
